@@ -289,6 +289,14 @@ def run_check(prop, tier, seed, replay=None):
             for a in audit_res:
                 if not a["ok"]:
                     broken.append(f"theorem {a['name']}: axioms={a['axioms']} {a.get('msg','')}")
+    recheck = None
+    if build_ok and tier == "thorough":
+        # independent re-check of the compiled proofs: replay every declaration of the property's modules (and what
+        # they import from this project) through the kernel with leanchecker
+        rc, out, err = sh(["lake", "env", "leanchecker"] + list(mod.LEAN_MODULES), cwd=LEAN, timeout=2400)
+        recheck = dict(tool="leanchecker", modules=list(mod.LEAN_MODULES), ok=(rc == 0), output=(out + err)[-300:])
+        if rc != 0:
+            broken.append("leanchecker rejects the compiled modules: " + (out + err)[-200:])
     forb = grep_forbidden()
     if forb:
         broken.append("forbidden constructs: " + "; ".join(forb[:5]))
@@ -300,6 +308,17 @@ def run_check(prop, tier, seed, replay=None):
     # 3+4 correspondence and direct oracle
     try:
         res = mod.run(ctx)
+        if tier == "thorough" and not [f for f in res.failures if not f.get("known")] and not res.disagreements:
+            # thorough: the same exploration under three further generator seeds (grids are simply repeated, randomised
+            # families see new schemas / values / schedules)
+            for j in (1, 2, 3):
+                cj = Ctx(prop, tier, seed * 1000 + 7 * j)
+                cj.model, cj.model_ok = ctx.model, ctx.model_ok
+                rj = mod.run(cj)
+                rule, exh = res.rule, res.exhaustive
+                res.merge(rj)
+                res.rule, res.exhaustive = rule, exh
+            res.extra["thorough_seeds"] = [seed] + [seed * 1000 + 7 * j for j in (1, 2, 3)]
     except Exception as e:  # noqa
         # the harness could not drive the implementation (an interface it relies on changed): the correspondence
         # no longer checks -- go on to the search phase; without a failing input this ends as no-failing-input-found
@@ -374,6 +393,7 @@ def run_check(prop, tier, seed, replay=None):
         generated=gen_info,
         broken=broken,
         notes=notes,
+        independent_recheck=recheck,
     )
     cov.update(res.extra)
     ev = dict(
